@@ -1,5 +1,5 @@
 from shexer.io.graph.yielder.base_triples_yielder import BaseTriplesYielder
-from shexer.utils.uri import remove_corners, unprefixize_uri_mandatory
+from shexer.utils.uri import remove_corners, unprefixize_uri_mandatory, unprefixize_uri_if_possible
 from shexer.utils.triple_yielders import tune_subj, tune_prop, tune_token
 import re
 
@@ -354,7 +354,7 @@ class BigTtlTriplesYielder(BaseTriplesYielder):
         elif raw_elem in _RDF_TYPE_CONTRACTED:
             return _RDF_TYPE_URI
         elif raw_elem.startswith('"'):  # it's a literal, will be better parsed later
-            return raw_elem
+            return self._expand_prefixed_datatype_if_needed(raw_elem)
         elif ":" in raw_elem:
             if raw_elem.startswith("_:"):
                 return raw_elem
@@ -363,6 +363,14 @@ class BigTtlTriplesYielder(BaseTriplesYielder):
         elif raw_elem in _BOOLEANS or self._is_num_literal(raw_elem):
             return raw_elem
             # else?? shouldnt happen, let it break with a nullpoitner
+
+    def _expand_prefixed_datatype_if_needed(self, raw_literal):
+        """A datatype may be written with any declared prefix ("1"^^ex:dt): turn it into "1"^^<http://...dt>"""
+        datatype_index = raw_literal.rfind('"') + 1
+        if raw_literal[datatype_index:datatype_index + 2] != "^^" or raw_literal[datatype_index + 2:datatype_index + 3] == "<":
+            return raw_literal
+        return raw_literal[:datatype_index + 2] + unprefixize_uri_if_possible(target_uri=raw_literal[datatype_index + 2:],
+                                                                             prefix_namespaces_dict=self._prefixes)
 
     def _parse_cornered_element(self, cornered_element):
         if self._base is None:
